@@ -376,6 +376,17 @@ class OutgoingMessageHandler:
     """Represent a handler for outgoing messages."""
 
     @classmethod
+    async def handle_presentation(
+        cls,
+        gateway: Gateway,
+        message: Message,  # noqa: ARG003
+        message_buffer: MessageBuffer | None,  # noqa: ARG003
+        decoded_message: str,
+    ) -> None:
+        """Process outgoing presentation messages."""
+        await gateway.transport.write(decoded_message)
+
+    @classmethod
     async def handle_set(
         cls,
         gateway: Gateway,
@@ -395,21 +406,36 @@ class OutgoingMessageHandler:
         await gateway.transport.write(decoded_message)
 
     @classmethod
+    async def handle_req(
+        cls,
+        gateway: Gateway,
+        message: Message,  # noqa: ARG003
+        message_buffer: MessageBuffer | None,  # noqa: ARG003
+        decoded_message: str,
+    ) -> None:
+        """Process outgoing req messages."""
+        await gateway.transport.write(decoded_message)
+
+    @classmethod
     async def handle_internal(
         cls,
         gateway: Gateway,
-        message: Message,
-        message_buffer: MessageBuffer | None,
+        message: Message,  # noqa: ARG003
+        message_buffer: MessageBuffer | None,  # noqa: ARG003
         decoded_message: str,
     ) -> None:
         """Process outgoing internal messages."""
-        if message_buffer:
-            message_buffer.internal_messages[
-                (message.node_id, message.child_id, message.message_type)
-            ] = message
+        await gateway.transport.write(decoded_message)
 
-            return
-
+    @classmethod
+    async def handle_stream(
+        cls,
+        gateway: Gateway,
+        message: Message,  # noqa: ARG003
+        message_buffer: MessageBuffer | None,  # noqa: ARG003
+        decoded_message: str,
+    ) -> None:
+        """Process outgoing stream messages."""
         await gateway.transport.write(decoded_message)
 
 
